@@ -605,7 +605,7 @@ LEVEL = ('Relational symbolic execution: the real code runs on a data set and on
          'the numerical routines (observed through recorders) or the loss / gradient values are proved equal under translation (all learners '
          'covered: Covariance, RCA incl. gapped / unknown chunk ids, LFDA, NCA, MLKR, LMNN, ITML incl. default bounds, SDML, MMC, SCML), '
          'within-tuple swaps of any subset of tuples (ITML, SDML, LSML, MMC), sample permutation (Covariance, RCA), and equivariant under '
-         'scaling (c^2) and rotation / reflection Q (Covariance, RCA, LSML loss with the prior rotated along) -- exact rational identities.')
+         'scaling (c^2) and rotation / reflection Q (Covariance, RCA, LSML loss with the identity prior; array prior rotated along: sampled) -- exact rational identities.')
 ASSUME = ['library routines are deterministic functions of their arguments: equal matrices at the call site give equal models (contract results memoised on canonical arguments)',
           'np.percentile is an uninterpreted function of the multiset of its input', 'rotation equivariance of pinvh / eigh themselves is a stated library axiom, not proved',
           'reals for float64: exactness on a dyadic grid is not attempted']
